@@ -658,6 +658,8 @@ func workload(c *rt.Ctx) []Case {
 	pkn = append(pkn, uniqueConstraintCases()...)
 	pkn = append(pkn, literalCaseCases()...)
 	pkn = append(pkn, sqlitePrefixCases()...)
+	pkn = append(pkn, fkActionCases()...)
+	pkn = append(pkn, miscFixedCases()...)
 	for _, cs := range pkn {
 		add(cs)
 	}
@@ -701,7 +703,7 @@ func workload(c *rt.Ctx) []Case {
 			k++
 		}
 		for i, cs := range pkn {
-			if i%6 == 0 || (cs.Src == "fk-pairing" || cs.Src == "null-default" || cs.Src == "notnull-same-default" || cs.Src == "gen-param-type" || cs.Src == "unique-constraint" || cs.Src == "literal-case" || cs.Src == "sqlite-prefix") && i%3 == 0 {
+			if i%6 == 0 || (cs.Src == "fk-pairing" || cs.Src == "null-default" || cs.Src == "notnull-same-default" || cs.Src == "gen-param-type" || cs.Src == "unique-constraint" || cs.Src == "literal-case" || cs.Src == "sqlite-prefix" || cs.Src == "fk-action" || cs.Src == "misc-fixed") && i%3 == 0 {
 				cs.CLI = true
 				cs.Name = "cli:" + cs.Name
 				add(cs)
@@ -1206,5 +1208,117 @@ func sqlitePrefixCases() []Case {
 	d.DropTable("sqlitex")
 	out = append(out, Case{Pair: sqlm.Pair{A: base, B: d, Mode: "atlas"}, Name: "sqlite-prefix:drop sqlitex", Src: "sqlite-prefix"},
 		Case{Pair: sqlm.Pair{A: d, B: base, Mode: sqlm.Styles[1].Name}, Name: "sqlite-prefix:add sqlitex", Src: "sqlite-prefix"})
+	return out
+}
+
+// fkActionCases: the ONLY difference between current and desired is one referential action of an
+// existing foreign key, for every ordered pair of {unspecified, NO ACTION, RESTRICT, CASCADE, SET NULL,
+// SET DEFAULT}: ON DELETE on a cross-table key, ON UPDATE on a self reference, and ON UPDATE of a
+// cross-table key whose ON DELETE stays RESTRICT. NO ACTION and RESTRICT are distinct actions in
+// SQLite (pragma_foreign_key_list reports them apart); unspecified = NO ACTION is the one equivalence.
+func fkActionCases() []Case {
+	acts := append([]string{""}, sqlm.Actions...)
+	ni := func(name string) sqlm.Col { return sqlm.Col{Name: name, Type: "integer", Null: true} }
+	mk := func(kind int, act string) sqlm.Schema {
+		par := sqlm.Table{Name: "fpar", Cols: []sqlm.Col{{Name: "id", Type: "integer"}, ni("up"), ni("v")}, PK: []string{"id"}}
+		chi := sqlm.Table{Name: "fchi", Cols: []sqlm.Col{{Name: "id", Type: "integer"}, ni("par_id"), ni("w")}, PK: []string{"id"}}
+		switch kind {
+		case 0:
+			chi.FKs = []sqlm.FK{{Name: "fchi_par", Cols: []string{"par_id"}, RefTable: "fpar", RefCols: []string{"id"}, OnDelete: act}}
+		case 1:
+			par.FKs = []sqlm.FK{{Name: "fpar_up", Cols: []string{"up"}, RefTable: "fpar", RefCols: []string{"id"}, OnUpdate: act, OnDelete: "CASCADE"}}
+		default:
+			chi.FKs = []sqlm.FK{{Name: "fchi_par", Cols: []string{"par_id"}, RefTable: "fpar", RefCols: []string{"id"}, OnDelete: "RESTRICT", OnUpdate: act}}
+		}
+		return sqlm.Schema{Tables: []sqlm.Table{par, chi}}
+	}
+	modes := []string{"atlas"}
+	for _, st := range sqlm.Styles {
+		modes = append(modes, st.Name)
+	}
+	var out []Case
+	k := 0
+	for kind := 0; kind < 3; kind++ {
+		for _, from := range acts {
+			for _, to := range acts {
+				if from == to {
+					continue
+				}
+				a, b := mk(kind, from), mk(kind, to)
+				if a.Validate() != nil || b.Validate() != nil {
+					continue
+				}
+				rows := 0
+				if k%4 == 0 {
+					rows = 3
+				}
+				out = append(out, Case{Pair: sqlm.Pair{A: a, B: b, Mode: modes[k%len(modes)], Rows: rows},
+					Name: fmt.Sprintf("fk-action:%s %q->%q", []string{"cross on delete", "self on update", "cross on update"}[kind], from, to), Src: "fk-action", Edits: []string{"fk.action"}})
+				k++
+			}
+		}
+	}
+	return out
+}
+
+// miscFixedCases makes catches deterministic that used to depend on the seeded sample: a generated
+// column only flips STORED <-> VIRTUAL (nothing else changes); a populated table only gains a column
+// whose default is CURRENT_TIMESTAMP / CURRENT_DATE / CURRENT_TIME (not a constant: no in-place ADD
+// COLUMN on a table with rows); a table with an untouched STORED column is rebuilt; an index with a
+// DESCENDING EXPRESSION part is created and re-planned.
+func miscFixedCases() []Case {
+	n := func(name, typ string) sqlm.Col { return sqlm.Col{Name: name, Type: typ, Null: true} }
+	S := func(t sqlm.Table) sqlm.Schema { return sqlm.Schema{Tables: []sqlm.Table{t}} }
+	base := func(stored bool) sqlm.Table {
+		return sqlm.Table{Name: "mf", Cols: []sqlm.Col{{Name: "id", Type: "integer"}, n("title", "text"), n("qty", "integer"),
+			{Name: "len", Type: "int", Null: true, Gen: &sqlm.Gen{Expr: "length(title)", Stored: stored, Refs: []string{"title"}}}}, PK: []string{"id"},
+			Idx: []sqlm.Idx{{Name: "mf_expr_desc", Parts: []sqlm.Part{{Col: "title"}, {Expr: "qty * 2", Desc: true}}, Refs: []string{"qty"}}}}
+	}
+	modes := []string{"atlas"}
+	for _, st := range sqlm.Styles {
+		modes = append(modes, st.Name)
+	}
+	var out []Case
+	k := 0
+	add := func(name, edit string, a *sqlm.Table, b sqlm.Table, rows int) {
+		for _, mode := range []string{"atlas", modes[1+k%(len(modes)-1)]} {
+			p := sqlm.Pair{B: S(b), Mode: mode, Rows: rows}
+			if a != nil {
+				p.A = S(*a)
+			} else if mode != "atlas" {
+				continue
+			}
+			out = append(out, Case{Pair: p, Name: "misc-fixed:" + name, Src: "misc-fixed", Edits: []string{edit}})
+		}
+		k++
+	}
+	st, vt := base(true), base(false)
+	add("create (stored, desc expression index)", "table.add", nil, st, 0)
+	add("create (virtual)", "table.add", nil, vt, 0)
+	add("stored -> virtual", "col.gen.toggle-stored", &st, vt, 0)
+	add("virtual -> stored", "col.gen.toggle-stored", &vt, st, 0)
+	add("stored -> virtual (populated)", "col.gen.toggle-stored", &st, vt, 3)
+	add("virtual -> stored + index in place", "col.gen.toggle-stored", &vt, func() sqlm.Table {
+		t := st.Clone()
+		t.Idx = append(t.Idx, sqlm.Idx{Name: "mf_qty", Parts: []sqlm.Part{{Col: "qty"}}})
+		return t
+	}(), 0)
+	for _, kind := range []bool{true, false} {
+		a := base(kind)
+		b := a.Clone()
+		b.Cols[2].Null = false
+		b.Cols[2].Default = &sqlm.Default{Kind: "num", V: "7"}
+		add(fmt.Sprintf("rebuild next to untouched generated column (stored=%v)", kind), "col.null.to-notnull-default", &a, b, 3)
+		c := a.Clone()
+		c.Checks = []sqlm.Check{{Name: "mf_idck", Expr: "id > 0", Refs: []string{"id"}}}
+		add(fmt.Sprintf("check added next to untouched generated column (stored=%v)", kind), "check.add.named", &a, c, 0)
+	}
+	for _, d := range []string{"CURRENT_TIMESTAMP", "CURRENT_DATE", "CURRENT_TIME"} {
+		a := base(false)
+		b := a.Clone()
+		b.Cols = append(b.Cols, sqlm.Col{Name: "created", Type: "datetime", Null: true, Default: &sqlm.Default{Kind: "expr", V: d}})
+		add("add column default "+d+" (populated)", "col.add.default-expr", &a, b, 3)
+		add("add column default "+d, "col.add.default-expr", &a, b, 0)
+	}
 	return out
 }
